@@ -346,6 +346,7 @@ def _make_pub(sig_line_text):
 def compose(unit, outdir):
     """returns (verus_text, linemap, diffs, rtrace_count)"""
     structs, consts, impls, frees = [], [], {}, []
+    impl_generics = {}
     diffs = []
     rcount = 0
     srcs = {}
@@ -375,7 +376,11 @@ def compose(unit, outdir):
             missing = [k for k in keep if k and not any(re.match(rf"\s*pub {k}:", x) for x in kept)]
             if missing:
                 raise Undecided(f"lost anchor: struct {e['struct']} has no field(s) {missing}")
-            structs.append(f"pub struct {e['struct']} {{\n" + "\n".join(kept) + "\n}")
+            # `generics=<'a>`: lifetime / type parameters of the struct, copied as given (and used for its impl block)
+            gen = e.get("generics", "")
+            if gen:
+                impl_generics[e["struct"]] = gen
+            structs.append(f"pub struct {e['struct']}{gen} {{\n" + "\n".join(kept) + "\n}")
             continue
         if "enum" in e:
             a, o, b = find_enum(src, e["enum"])
@@ -516,7 +521,8 @@ def compose(unit, outdir):
              "use vstd::prelude::*;", "verus! {", ""]
     parts += consts + [""] + structs + [""]
     for impl, items in impls.items():
-        parts.append(f"impl {impl} {{")
+        g_ = impl_generics.get(impl, "")
+        parts.append(f"impl{g_} {impl}{g_} {{")
         for _, t in items:
             parts.append(t)
             parts.append("")
